@@ -56,7 +56,12 @@ def main():
             out[m] = res
             print(m, json.dumps({p: (r.get('exit'), (r.get('flagged_by') or [''])[0][:110]) if isinstance(r, dict) else r
                                  for p, r in res.items()}), flush=True)
-    json.dump(out, open('/verif/.work/mutant_wt_last.json', 'w'), indent=1)
+    old = {}
+    if os.path.exists('/verif/.work/mutant_wt_last.json'):
+        old = json.load(open('/verif/.work/mutant_wt_last.json'))
+    old.update(out)
+    json.dump(old, open('/verif/.work/mutant_wt_last.json', 'w'), indent=1)
 
 
-main()
+if __name__ == '__main__':
+    main()
